@@ -29,6 +29,8 @@ use std::panic::{catch_unwind, AssertUnwindSafe};
 
 const CODE: u32 = 0x1000; // code under test, followed by nops (landing pads)
 const CODE_WORDS: usize = 12;
+/// words of the code region for a case of `n` instruction words: the case, then nops (landing pads)
+fn code_words_for(n: usize) -> usize { if n + 2 <= CODE_WORDS { CODE_WORDS } else { n + 8 } }
 const FAR: u32 = 0x2000; // second region of nops, target of register-indirect transfers
 const FAR_WORDS: usize = 8;
 const DATA: u32 = 0x4000; // data window
@@ -261,7 +263,7 @@ fn mips_run(c: &mut Cpu, words: &[u32], big: bool, late_target: bool) -> Result<
     let mut n = 0;
     while pc >= CODE && pc < end {
         n += 1;
-        if n > 64 { return Err(()); }
+        if n > 600 { return Err(()); }
         let w = words[((pc - CODE) / 4) as usize];
         match mips_exec(c, w, pc, big)? {
             Flow::Seq => pc += 4,
@@ -415,7 +417,7 @@ fn ppc_run(c: &mut Cpu, words: &[u32]) -> Result<u32, ()> {
     let mut n = 0;
     while pc >= CODE && pc < end {
         n += 1;
-        if n > 64 { return Err(()); }
+        if n > 600 { return Err(()); }
         pc = ppc_exec(c, words[((pc - CODE) / 4) as usize], pc)?;
     }
     Ok(pc)
@@ -467,7 +469,7 @@ const IMMS: [u32; 7] = [0, 1, 0x7fff, 0x8000, 0xffff, 0x1234, 0x8001];
 
 // ---- MIPS assembler
 const ZERO: u8 = 0; const T0: u8 = 8; const T1: u8 = 9; const T2: u8 = 10; const T3: u8 = 11; const T4: u8 = 12; const T5: u8 = 13;
-const S0: u8 = 16; const S1: u8 = 17; const A0: u8 = 4; const RA: u8 = 31;
+const S0: u8 = 16; const S1: u8 = 17; const A0: u8 = 4; const A1: u8 = 5; const RA: u8 = 31;
 fn mn(r: u8) -> &'static str { MIPS_NAMES[r as usize] }
 fn m_r(funct: u32, rd: u8, rs: u8, rt: u8, sa: u32) -> u32 { ((rs as u32) << 21) | ((rt as u32) << 16) | ((rd as u32) << 11) | (sa << 6) | funct }
 fn m_r2(funct: u32, rd: u8, rs: u8, rt: u8) -> u32 { (0x1c << 26) | m_r(funct, rd, rs, rt, 0) }
@@ -631,6 +633,7 @@ fn mips_cases() -> Vec<Case> {
         }
     }
     mips_branches(&mut b);
+    mips_window_cases(&mut b);
     b.out
 }
 
@@ -698,6 +701,31 @@ fn mips_branches(b: &mut B) {
         emit(b, if rd == RA { "jalr" } else { "jalr_rd" }, format!("jalr {},{}", mn(rd), mn(rs)), m_r(9, rd, rs, 0, 0), &[rd, rs, RA], slots, tw);
     }
 }
+
+/// branch + delay slot at every position relative to the 64-byte translation windows of `translate_function`: N leading
+/// `addiu $a0,$a0,1`, then the branch, then the delay slot `addiu $a0,$a0,0x100` (the block translator has to look ahead
+/// for the delay slot when the branch is the last word of a full window; function recovery has to hand it those bytes)
+fn mips_window_cases(b: &mut B) {
+    let lead = m_i(9, A0, A0, 1);
+    let slot = m_i(9, A0, A0, 0x100);
+    let positions: Vec<usize> = if deep() { (0..=70).collect() } else { vec![0, 1, 12, 13, 14, 15, 16, 17, 29, 30, 31, 32, 33, 45, 46, 47, 48, 61, 62, 63, 64, 65] };
+    for n in positions {
+        let tgt = CODE + 4 * (n as u32 + 4);
+        let off = ((tgt - (CODE + 4 * n as u32 + 4)) / 4) & 0xffff;
+        let mk = |w: u32| -> Vec<u32> { let mut v = vec![lead; n]; v.push(w); v.push(slot); v };
+        b.add("window.bne", format!("{} x addiu $a0,$a0,1 ; bne $a1,$zero,0x{:x} ; addiu $a0,$a0,256", n, tgt), mk(m_i(5, ZERO, A1, off)), &[A0, A1], &[], singles(Loc::G(A1), &[0, 1]), false, false);
+        b.add("window.beq", format!("{} x addiu $a0,$a0,1 ; beq $a1,$zero,0x{:x} ; addiu $a0,$a0,256", n, tgt), mk(m_i(4, ZERO, A1, off)), &[A0, A1], &[], singles(Loc::G(A1), &[0, 1]), false, false);
+        b.add("window.j", format!("{} x addiu $a0,$a0,1 ; j 0x{:x} ; addiu $a0,$a0,256", n, tgt), mk((2 << 26) | (tgt >> 2)), &[A0], &[], vec![], false, false);
+        b.add("window.jal", format!("{} x addiu $a0,$a0,1 ; jal 0x{:x} ; addiu $a0,$a0,256", n, tgt), mk((3 << 26) | (tgt >> 2)), &[A0, RA], &[], vec![], false, false);
+        b.add("window.jr", format!("{} x addiu $a0,$a0,1 ; jr $ra ; addiu $a0,$a0,256", n), mk(m_r(8, 0, RA, 0, 0)), &[A0, RA], &[], singles(Loc::G(RA), &[FAR + 8]), false, false);
+        for &(name, op, rtf, vals) in &[("blez", 6u32, 0u8, [0u32, 1]), ("bgtz", 7, 0, [0, 1]), ("bltz", 1, 0, [0, 0x8000_0000]), ("bgez", 1, 1, [0, 0x8000_0000]), ("bgezal", 1, 0x11, [0, 0x8000_0000])] {
+            b.add(&format!("window.{}", name), format!("{} x addiu $a0,$a0,1 ; {} $a1,0x{:x} ; addiu $a0,$a0,256", n, name, tgt), mk(m_i(op, rtf, A1, off)), &[A0, A1, RA], &[], singles(Loc::G(A1), &vals), false, false);
+        }
+        b.add("window.jalr", format!("{} x addiu $a0,$a0,1 ; jalr $t0 ; addiu $a0,$a0,256", n), mk(m_r(9, RA, T0, 0, 0)), &[A0, T0, RA], &[], singles(Loc::G(T0), &[FAR + 8]), false, false);
+        b.add("window.bltzal", format!("{} x addiu $a0,$a0,1 ; bltzal $a1,0x{:x} ; addiu $a0,$a0,256", n, tgt), mk(m_i(1, 0x10, A1, off)), &[A0, A1, RA], &[], singles(Loc::G(A1), &[0, 0x8000_0000]), false, false);
+    }
+}
+fn deep() -> bool { std::env::var("VERIF_TIER").map(|t| t == "thorough").unwrap_or(false) } // thorough tier: wider bounds
 
 // ---- PPC assembler
 fn p_d(op: u32, d: u8, a: u8, imm: u32) -> u32 { (op << 26) | ((d as u32) << 21) | ((a as u32) << 16) | (imm & 0xffff) }
@@ -939,7 +967,8 @@ fn to_bytes(arch: Arch, words: &[u32]) -> Vec<u8> {
 
 fn lift(arch: Arch, words: &[u32], debug: bool) -> Result<(RC<il::Program>, RC<memory::backing::Memory>), String> {
     let mut code: Vec<u32> = words.to_vec();
-    while code.len() < CODE_WORDS { code.push(arch.nop()); }
+    let code_words = code_words_for(words.len());
+    while code.len() < code_words { code.push(arch.nop()); }
     let far: Vec<u32> = vec![arch.nop(); FAR_WORDS];
     let mut backing = memory::backing::Memory::new(arch.endian());
     let perm = memory::MemoryPermissions::EXECUTE | memory::MemoryPermissions::READ;
@@ -985,7 +1014,7 @@ fn run(arch: Arch, program: &RC<il::Program>, backing: &RC<memory::backing::Memo
     };
     let is_pad = |a: u64| -> bool {
         let a = a as u32;
-        (a & 3 == 0) && ((a >= CODE + 4 * nwords as u32 && a < CODE + 4 * CODE_WORDS as u32) || (a >= FAR && a < FAR + 4 * FAR_WORDS as u32))
+        (a & 3 == 0) && ((a >= CODE + 4 * nwords as u32 && a < CODE + 4 * code_words_for(nwords) as u32) || (a >= FAR && a < FAR + 4 * FAR_WORDS as u32))
     };
     let mut driver = Driver::new(program.clone(), location, state, arch_rc);
     let mut steps = 0;
@@ -994,7 +1023,7 @@ fn run(arch: Arch, program: &RC<il::Program>, backing: &RC<memory::backing::Memo
         let at = driver.location().apply(driver.program()).map_err(|e| format!("{}", e))?.address();
         if let Some(a) = at { if a <= 0xffff_ffff && is_pad(a) { pc = a as u32; break; } }
         steps += 1;
-        if steps > 400 { return Err("did not reach a landing pad within 400 IL steps".to_string()); }
+        if steps > 4000 { return Err("did not reach a landing pad within 4000 IL steps".to_string()); }
         driver = driver.step().map_err(|e| format!("step: {}", e))?;
     }
     Ok((driver.state().clone(), pc))
